@@ -118,6 +118,11 @@ type Machine struct {
 	poolPolicy string
 	allocSeq   int
 	allocBytes *Term // running total of requested bytes (M-alloc)
+	// C18: operations that allocate on the heap whatever the compiler's escape analysis decides (growslice, make with a
+	// non-constant size, mallocgc, reflect.New/MakeMap, pool miss, fmt/errors/strings helpers), counted while tracking is on
+	allocTrack  bool
+	allocEvents int
+	allocSites  []string
 	owner      string
 
 	steps       int64
@@ -158,6 +163,17 @@ func (m *Machine) fresh(prefix string, w int) *Term {
 
 func (m *Machine) unsupported(format string, a ...interface{}) {
 	panic(&pathEnd{"unsupported", fmt.Sprintf(format, a...)})
+}
+
+// allocEvent records a definite heap allocation (see allocTrack).
+func (m *Machine) allocEvent(what string) {
+	if !m.allocTrack {
+		return
+	}
+	m.allocEvents++
+	if len(m.allocSites) < 8 {
+		m.allocSites = append(m.allocSites, what+" @ "+m.site())
+	}
 }
 
 func (m *Machine) site() string {
@@ -586,6 +602,9 @@ func (m *Machine) violate(kind, label string, extra *Term) {
 		return
 	}
 	v := Violation{Kind: kind, Label: label, Site: m.site(), Phase: m.phase, Nondets: nd, Decisions: append([]int(nil), m.trace...)}
+	if strings.HasPrefix(label, "C18") && len(m.allocSites) > 0 {
+		v.Site = "allocating operations: " + strings.Join(m.allocSites, "; ")
+	}
 	// does the witness depend on the contents of uninitialised memory (fresh "garb" bytes)?
 	q := append([]*Term(nil), m.pc...)
 	if extra != nil {
